@@ -757,7 +757,7 @@ def files_strategy(tier):
         types = draw(st.lists(st.sampled_from(specs.TYPES), max_size=min(n, 3), unique=True))
         blocks = [{"spec": draw(specs.SPEC[t]("quick")), "comment": draw(comments), "cdate": draw(dates31), "mdate": draw(dates31)} for t in types]
         rel = draw(st.sampled_from(["copy", "metadata-only", "slot-count", "version", "block-changed", "block-removed", "block-added", "block-order", "block-order",
-                                    "in-session-remove", "in-session-add", "in-session-replace"]))
+                                    "in-session-remove", "in-session-add", "in-session-replace", "stale-object-remove", "stale-object-add", "stale-object-replace"]))
         return {"N": n, "version": draw(st.sampled_from([1, 1, 2, 7])), "blocks": blocks, "rel": rel, "pick": draw(st.integers(0, 10 ** 6)),
                 "comment2": draw(comments), "date2": draw(dates31)}
 
@@ -823,6 +823,67 @@ def run_files(ctx, case):
             t = unused[pick % len(unused)]
             b_blocks.append({"spec": _minimal(t), "comment": "", "cdate": 0, "mdate": 0})
             expect = False
+    if rel.startswith("stale-object-"):
+        # a LONG-LIVED object for file a was used before (a context entered and left, the blocks read); then file a is edited through ANOTHER
+        # object for the same path; then the long-lived object is compared: with an untouched copy of the old content (now different), with a
+        # fresh object for its own file (equal), with a file that holds the new content (equal)
+        from basictdf.tdfBlock import BlockType
+
+        d = env.fresh_dir()
+        try:
+            pa, pold, pnew = os.path.join(d, "a.tdf"), os.path.join(d, "old.tdf"), os.path.join(d, "new.tdf")
+            img = _image(na, va, a_blocks)
+            open(pa, "wb").write(img)
+            open(pold, "wb").write(img)
+            present = [b["spec"]["t"] for b in a_blocks]
+            absent = [t for t in specs.TYPES if t not in present]
+            kind = rel.split("-")[-1]
+            if (kind in ("remove", "replace") and not present) or (kind == "add" and len(present) >= na):
+                ctx.case(case, False, labels=[f"files:{rel}:not-applicable"])
+                return
+
+            def history():
+                long_lived = Tdf(pa)
+                with long_lived as t_:
+                    _ = t_.blocks if pick % 2 else len(t_)
+                if pick % 3 == 0:
+                    with long_lived as t_, Tdf(pold) as to_:
+                        _ = t_ == to_
+                with Tdf(pa).allow_write() as w:
+                    if kind == "remove":
+                        w.remove_block(BlockType(reftdf.TYPE_CODE[present[pick % len(present)]]))
+                    elif kind == "add":
+                        w.add_block(specs.build(_minimal(absent[pick % len(absent)])))
+                    else:
+                        t2 = present[pick % len(present)]
+                        pair = None
+                        for r in ("scalar:frequency", "scalar:startTime", "label", "append-item"):
+                            if r in relations_for(t2):
+                                pair = DIFF_RELS[r](_clamp_frames(copy.deepcopy(a_blocks[present.index(t2)]["spec"])), pick)
+                                if pair:
+                                    break
+                        if not pair:
+                            return None
+                        w.replace_block(specs.build(pair[1]))
+                import shutil
+
+                shutil.copyfile(pa, pnew)
+                out = {}
+                for name, other_path, want in (("old-content", pold, False), ("own-file-fresh-object", pa, True), ("new-content", pnew, True)):
+                    with long_lived as t_, Tdf(other_path) as o_:
+                        out[name] = (bool(t_ == o_), bool(o_ == t_), want)
+                return out
+            ok, res = ctx.must(history, f"files/{rel}/history", f"comparing a long-lived object after its file was edited through another object ({rel})")
+            if ok and res:
+                for name, (r1, r2, want) in res.items():
+                    if (r1, r2) != (want, want):
+                        ctx.fail(f"files/{rel}/{name}/{'reported-equal' if not want else 'reported-different'}",
+                                 f"a Tdf object that had been used before its file was edited ({kind}) through another object for the same path compares "
+                                 f"{'EQUAL to' if not want else 'unequal to'} {name.replace('-', ' ')} (a==b: {r1}, b==a: {r2})")
+        finally:
+            env.rmdir(d)
+        ctx.case(case, True, labels=[f"files:{rel}", f"blocks={len(a_blocks)}"])
+        return
     if rel.startswith("in-session-"):
         # two identical files; one of them is edited INSIDE an open write context in which the two had already been compared once:
         # the comparison made right after the edit, in the same context, sees the edit
@@ -926,14 +987,15 @@ def enum_file_relations(tier):
 
     blocks = [{"spec": labelled_spec(t, 2), "comment": t, "cdate": 5, "mdate": 6} for t in ("events", "emg", "data3D")]
     for rel in ("copy", "metadata-only", "slot-count", "version", "block-changed", "block-removed", "block-added", "block-order", "in-session-remove", "in-session-add",
-                "in-session-replace"):
+                "in-session-replace", "stale-object-remove", "stale-object-add", "stale-object-replace"):
         for n in (3, 5, 14):
             for pick in range(6):
                 yield {"N": n, "version": 1, "blocks": blocks, "rel": rel, "pick": pick, "comment2": "other comment", "date2": 77}
 
 
 SUBS.append(Sub("files-each-relation", run_files, kind="enum", enumerate=enum_file_relations, shards=(4, 8),
-                rule="fixed files (events + EMG + 3D data) x each of the 11 file relations x table lengths {3,5,14} x 6 picks; finite, enumerated", nontrivial_required=False))
+                rule="fixed files (events + EMG + 3D data) x each of the 14 file relations (among them: a long-lived object compared after its file was edited through another "
+                     "object) x table lengths {3,5,14} x 6 picks; finite, enumerated", nontrivial_required=False))
 
 
 # ---------------------------------------------------------------------------------------
